@@ -1,7 +1,51 @@
 // pieces of the table engine reused by other engines
 #pragma once
 #include "common.h"
+extern "C" {
+#include <mtbl.h>
+}
+
 // Runs the real writer over `adds` with the writer configuration in p.cfg (comp, level, bsize,
 // rint, pool + sched, prefix, wfrag, initfd); fills `model` with the accepted entries.
 bool tablelib_write(const Plan &p, RunResult &res, const std::string &path, TableModel &model,
 		    const std::vector<Op> &adds, bool check_gate, Bytes *prefix_out);
+
+// Stateful multi-iterator client over any mtbl_source, checked against an ordered-map model.
+// ops: open S kind K0 K1 | next S n | seek S K | close S | q kind K0 K1
+// key tokens: byte specs or symbolic (@k<i> @s<i> @f<i> @l<i> @cur @cf @cl @pf @nf @rs<i> @end, optional :variant)
+struct ClientSlot {
+	mtbl_iter *it = nullptr;
+	bool open = false;
+	int kind = 0;
+	Bytes k0, k1;
+	TableModel::const_iterator pos;
+	bool failed = false;
+	bool have = false;
+	const uint8_t *kp = nullptr, *vp = nullptr;
+	size_t kl = 0, vl = 0;
+	Bytes kcopy, vcopy;
+	Bytes cur;
+	bool crossed = false;
+	int last_blk = -1;
+};
+
+struct Client {
+	RunResult &res;
+	const TableModel &model;
+	const mtbl_source *src;
+	const mfmt::DFile *df;	// may be null (no block structure known)
+	std::vector<Bytes> keys;
+	std::map<Bytes, int, bool (*)(const Bytes &, const Bytes &)> blk_of{ bytes_less };
+	ClientSlot slot[4];
+	bool had_seek_after_cross = false, had_any_seek = false;
+	std::string tag;	// prefix for violation sites (e.g. "MERGER-")
+
+	Client(RunResult &r, const TableModel &m, const mtbl_source *s, const mfmt::DFile *d, const std::string &tag = "");
+	Bytes resolve(const std::string &tok, const ClientSlot *s);
+	bool op(const Op &o, size_t opi);	// true if the op was a client op
+	void close_all();
+	void query(int kind, const Bytes &k0, const Bytes &k1, size_t opi);
+private:
+	void do_next(int si, size_t opi);
+	void slot_close(ClientSlot &s, const char *opname);
+};
